@@ -413,6 +413,8 @@ func checkC07(r *Run) []Violation {
 		}
 	}
 	var acceptedUnits []int // units accepted so far, in order
+	acceptedBefore := 0     // ... at the start of the previous attempt
+	var alts []int          // other acceptable prefixes (after a callback panicked through Stream)
 	expAll, _ := h.Model(r.sc.Start)
 	for i, att := range r.Results {
 		if att.Master != nil && len(att.Master.Dumps) == 0 && att.HadConn && !att.Plan.Stop.connPhase() && len(att.Causes) == 0 && !att.Hang && att.Returned {
@@ -457,7 +459,26 @@ func checkC07(r *Run) []Violation {
 				for _, e := range expAll[minInt(len(acceptedUnits), len(expAll)):] {
 					remaining = append(remaining, e.Unit)
 				}
-				if !h.ResumeOK(req, remaining) {
+				ok := h.ResumeOK(req, remaining)
+				// (alts: the application's own callback panicked *through* an earlier
+				// Stream call: what the Streamer remembers of that call is not specified.
+				// Resuming where that call had started is as good as resuming after what
+				// it accepted, until a later call has asked for a dump.)
+				for _, alt := range alts {
+					if ok {
+						break
+					}
+					var before []int
+					for _, e := range expAll[minInt(alt, len(expAll)):] {
+						before = append(before, e.Unit)
+					}
+					if h.ResumeOK(req, before) {
+						ok = true
+						acceptedUnits = acceptedUnits[:minInt(alt, len(acceptedUnits))]
+					}
+				}
+				alts = nil
+				if !ok {
 					rule := "offset"
 					if h.fileIndex(req.File) < 0 {
 						rule = "file"
@@ -466,10 +487,14 @@ func checkC07(r *Run) []Violation {
 				}
 			}
 		}
+		acceptedBefore = len(acceptedUnits)
 		for _, c := range att.Calls {
 			if c.Returned && (c.Verdict == nil || c.Skipped) && c.Snap != nil {
 				acceptedUnits = append(acceptedUnits, h.unitByNext(c.Snap.Next))
 			}
+		}
+		if att.EnvPanicked {
+			alts = append(alts, acceptedBefore)
 		}
 	}
 	return vs
